@@ -13,6 +13,8 @@ RULE = ("cases: (value, linear factor k, second value, component, ordered unit t
         "triples (hence all 9 ordered pairs) are enumerated by index inside the strategy, values are 0 or log-uniform "
         "1e-12..1e6, components built-in or random molar mass 1..1000; rejection part: missing component with kg/(m2 h kPa) "
         "on either side, generated unknown unit names on either side, negative/NaN values for the clamp. "
+        "One Permeance object converted repeatedly (another component first; with, then without a component), molar mass of a used "
+        "synthetic component edited in place / on copies, numeric type of the clamped value drawn (float, int, numpy ints and floats). "
         "non-trivial = value>0 and A!=B (conversion part) / every rejection case; distinct = SHA-1 of the case JSON")
 ASSUMPTIONS = ["a Permeance object may be asked any number of times, for different components; negative values of any numeric type are clamped", "absolute factors as stated in the property: 1 kg/(m2 h kPa) = 1/(3600 M) SI, 1 GPU = 3.35e-10 SI",
                "relative tolerance 1e-14 for a handful of multiplications/divisions"]
